@@ -19,21 +19,21 @@ def natives(w):
 
 def run(rep):
     w = rep.world('dev')
-    p1(rep, w)
-    p2(rep, w)
-    p3(rep, w)
-    p5(rep, w)
-    p6(rep, w)
-    p7(rep, w)
-    p8(rep, w)
-    p9(rep, w)
-    c01.r1(rep, w)     # memory safety needs complete tracing: an untraced edge is a use-after-free at the next collection
+    rep.guard(p1, rep, w)
+    rep.guard(p2, rep, w)
+    rep.guard(p3, rep, w)
+    rep.guard(p5, rep, w)
+    rep.guard(p6, rep, w)
+    rep.guard(p7, rep, w)
+    rep.guard(p8, rep, w)
+    rep.guard(p9, rep, w)
+    rep.guard(c01.r1, rep, w)     # memory safety needs complete tracing: an untraced edge is a use-after-free at the next collection
     import c12
-    c12.h4(rep, w)     # a map borrowed mutably while its key is formatted for the error message: RefCell panic
+    rep.guard(c12.h4, rep, w)     # a map borrowed mutably while its key is formatted for the error message: RefCell panic
     import c04_narrow
-    c04_narrow.b4(rep, w)   # a truncated jump operand makes the VM execute operand bytes as instructions
+    rep.guard(c04_narrow.b4, rep, w)   # a truncated jump operand makes the VM execute operand bytes as instructions
     import c17
-    c17.l6(rep, w, 'C02')   # a stale throw site makes runtime_error index the wrong chunk's line table (host panic)
+    rep.guard(c17.l6, rep, w, 'C02')   # a stale throw site makes runtime_error index the wrong chunk's line table (host panic)
 
 
 def const_usize(o):
